@@ -224,10 +224,6 @@ impl Sut {
         self.importer.import(BlockNumber(target)).await
     }
 
-    pub async fn highest_stored(&self) -> StdResult<Option<u64>> {
-        Ok(self.repo.get_transaction_highest_chain_point().await?.map(|c| *c.block_number))
-    }
-
     pub async fn dump(&self) -> StdResult<Dump> {
         let mut d = Dump::default();
         for b in self.repo.get_all_blocks().await? {
